@@ -218,6 +218,34 @@ class _SwapIndependent(ast.NodeTransformer):
         return node
 
 
+class _CondTemp(ast.NodeTransformer):
+    """if <expr>: ...  ->  cond_tw_N = <expr>; if cond_tw_N: ...   (first `if` of an elif chain only)."""
+
+    def __init__(self) -> None:
+        self.k = 0
+
+    def _block(self, body: List[ast.stmt]) -> List[ast.stmt]:
+        out: List[ast.stmt] = []
+        for st in body:
+            if isinstance(st, ast.If) and not isinstance(st.test, (ast.Name, ast.Constant)) and not (isinstance(st.test, ast.Attribute) and st.test.attr == 'TYPE_CHECKING'):
+                self.k += 1
+                nm = f'cond_tw_{self.k}'
+                out.append(ast.copy_location(ast.Assign(targets=[ast.Name(id=nm, ctx=ast.Store())], value=st.test), st))
+                st.test = ast.copy_location(ast.Name(id=nm, ctx=ast.Load()), st.test)
+            out.append(st)
+        return out
+
+    def generic_visit(self, node: ast.AST) -> ast.AST:
+        super().generic_visit(node)
+        for fld in ('body', 'orelse', 'finalbody'):
+            v = getattr(node, fld, None)
+            if isinstance(v, list) and v and isinstance(v[0], ast.stmt) and not isinstance(node, (ast.Module, ast.ClassDef)):
+                if fld == 'orelse' and isinstance(node, ast.If) and len(v) == 1 and isinstance(v[0], ast.If):
+                    continue  # keep elif chains intact
+                setattr(node, fld, self._block(v))
+        return node
+
+
 class _Keywordise(ast.NodeTransformer):
     """f(a, b) -> f(x=a, y=b) for every call whose parameter names are known."""
 
@@ -262,6 +290,8 @@ def make_twin(repo: str, dest: str, rename: bool, extra: str = '') -> None:
                     tree = _Keywordise(rel, _SIGS[0]).visit(tree)
                 if extra == 'reorder':
                     tree = _SwapIndependent().visit(tree)
+                if extra == 'condtmp':
+                    tree = _CondTemp().visit(tree)
                 if extra == 'log':
                     has = any(isinstance(x, ast.ImportFrom) and any(a.name == 'log' for a in x.names) for x in tree.body)
                     tree = _LogEntry(has).visit(tree)
@@ -278,7 +308,7 @@ _SIGS: List[Dict[tuple, List[str]]] = [{}]
 def run(repo: str = '/repo', props: str = 'all') -> int:
     rc_all = 0
     _SIGS[0] = _signatures(repo)
-    kinds = [(False, ''), (True, ''), (False, 'flip'), (False, 'swap'), (False, 'rettmp'), (False, 'ifexp'), (False, 'aug'), (False, 'log'), (False, 'kwargs'), (False, 'reorder')]
+    kinds = [(False, ''), (True, ''), (False, 'flip'), (False, 'swap'), (False, 'rettmp'), (False, 'ifexp'), (False, 'aug'), (False, 'log'), (False, 'kwargs'), (False, 'reorder'), (False, 'condtmp')]
     if os.environ.get('VERIF_TWIN_KINDS'):
         want = os.environ['VERIF_TWIN_KINDS'].split(',')
         kinds = [k for k in kinds if (('rename' if k[0] else 'plain') if not k[1] else k[1]) in want]
